@@ -30,6 +30,8 @@ structure Compat (T : Table) : Prop where
   rp0 : T.binding .rp = 0
   rb0 : T.binding .rb = 0
   comma0 : T.binding .comma = 0
+  /-- literals and identifiers do not bind to the left -/
+  atom0 : ∀ a : Atom, T.binding a.kind = 0
   /-- `(` and `[` bind tighter than every operator (so they never follow an operand silently) -/
   lpHigh : ∀ o, bp T o < T.binding .lp
   lbHigh : ∀ o, bp T o < T.binding .lb
@@ -143,6 +145,16 @@ theorem GI (H : Compat T) : ∀ {its ts}, PrintsItems its ts → ∀ (rest : Lis
     · apply G H hp 0 _ e _ (by simp [MCtx.val]) (by simp [MCtx.val, FCtx.val]) (by simp [lbp, TK.kind, H.comma0])
       exact Loop.stop (by simp [lbp, TK.kind, H.comma0])
     · simp only [dropCommaK]
+      exact GI H hr rest
+  | _, _, @PrintsItems.juxt e irest ts ts' a tl hp hr hts', rest => by
+    rw [List.append_assoc]
+    have hd : dropCommaK (ts' ++ rest) = ts' ++ rest := by rw [hts']; rfl
+    have hl : lbp T (ts' ++ rest) = 0 := by rw [hts']; simp [lbp, TK.kind, H.atom0]
+    apply ItemsR.cons (ts1 := ts' ++ rest)
+    · exact Prints.starts hp _
+    · apply G H hp 0 _ e _ (by simp [MCtx.val]) (by simp [MCtx.val, FCtx.val]) (by simp [hl])
+      exact Loop.stop (by simp [hl])
+    · rw [hd]
       exact GI H hr rest
 end
 
